@@ -23,7 +23,23 @@ fn show(bytes: &[u8]) -> String {
 // ---------------------------------------------------------------------------------------------
 // (a) fixed point
 
+/// local mean time offsets (before a zone adopted standard time) carry seconds, which neither
+/// encoding can write: open known finding F25, excluded from the generated search
+fn has_offset_with_seconds(v: &RVal) -> bool {
+    let mut bad = false;
+    v.walk(&mut |n| {
+        if let RVal::DateTime(d) = n {
+            bad |= d.offset % 60 != 0;
+        }
+    });
+    bad
+}
+
 fn zinc_fixed_point(text: &str, rec: &mut Rec) -> Verdict {
+    zinc_fixed_point_opt(text, rec, false)
+}
+
+fn zinc_fixed_point_opt(text: &str, rec: &mut Rec, strict: bool) -> Verdict {
     let d1 = match fueled(text.len(), || from_str(text)) {
         Ok(Ok(v)) => v,
         Ok(Err(_)) => {
@@ -34,6 +50,10 @@ fn zinc_fixed_point(text: &str, rec: &mut Rec) -> Verdict {
     };
     rec.class("zinc:accepted");
     let r1 = project(&d1);
+    if !strict && has_offset_with_seconds(&r1) {
+        rec.excluded("timestamp-whose-zone-offset-has-seconds(F25)");
+        return Verdict::Pass;
+    }
     let e1 = match zinc_encode(&d1) {
         Ok(t) => t,
         Err(f) => return prefix_sig("C11:zinc-fixpoint:encode(d1)", f, &shape(&r1)),
@@ -68,6 +88,10 @@ fn zinc_fixed_point(text: &str, rec: &mut Rec) -> Verdict {
 }
 
 fn hayson_fixed_point(text: &str, rec: &mut Rec) -> Verdict {
+    hayson_fixed_point_opt(text, rec, false)
+}
+
+fn hayson_fixed_point_opt(text: &str, rec: &mut Rec, strict: bool) -> Verdict {
     let dec = |t: &str| guarded(|| serde_json::from_str::<Value>(t));
     let enc = |v: &Value| guarded(|| serde_json::to_string(v));
     let d1 = match dec(text) {
@@ -80,6 +104,10 @@ fn hayson_fixed_point(text: &str, rec: &mut Rec) -> Verdict {
     };
     rec.class("hayson:accepted");
     let r1 = project(&d1);
+    if !strict && has_offset_with_seconds(&r1) {
+        rec.excluded("timestamp-whose-zone-offset-has-seconds(F25)");
+        return Verdict::Pass;
+    }
     let e1 = match enc(&d1) {
         Ok(Ok(t)) => t,
         Ok(Err(e)) => return Verdict::fail(format!("C11:hayson-fixpoint:encode(d1):error:{}", shape(&r1)), format!("{e}; original {}", show(text.as_bytes()))),
@@ -121,10 +149,11 @@ fn check_fixpoint(d: &Doc, rec: &mut Rec) -> Verdict {
         return Verdict::Pass;
     };
     rec.sample(|| format!("[{}] {}", d.origin, show(&d.bytes)));
-    if d.origin.starts_with("hayson") {
-        hayson_fixed_point(text, rec)
+    let strict = d.origin.starts_with("strict:");
+    if d.origin.contains("hayson") {
+        hayson_fixed_point_opt(text, rec, strict)
     } else {
-        let v = zinc_fixed_point(text, rec);
+        let v = zinc_fixed_point_opt(text, rec, strict);
         if v.is_fail() {
             return v;
         }
